@@ -1,7 +1,7 @@
 \* EXPECTED VIOLATION StrictCapacityOnPush: two concurrent pushers overshoot Max-1
 CONSTANTS NTx = 3 Kind <- KindL Sender <- SenderL Nonce <- NonceL NAccs = 1 Accs <- MCAccs StartEmpty = FALSE
   Max = 3 NPushers = 2 NConsumers = 0 Batch = 2
-  MaxPush = 3 MaxBlocks = 0 MaxFail = 0 MaxCrash = 0 MaxClose = 0 MaxPops = 0 MaxExecErr = 0
+  MaxPush = 3 MaxBlocks = 0 MaxFail = 0 MaxCrash = 0 MaxClose = 0 MaxPops = 0 MaxExecErr = 0 MaxFatal = 0
   DedupFix = TRUE OverflowFix = TRUE Mutant = "none"
 INIT Init
 NEXT Next
